@@ -186,7 +186,7 @@ fn dead_effect_family() -> Vec<Prog> {
     ("div-by-literal-zero", "let _ = a / 0;"),
     ("printing-call", "let _ = Main.noisy(a);"),
     ("panicking-call", "let _ = Main.boom(a);"),
-    ("vec-out-of-bounds", "let _ = Vec.of(1, 2).get(a);"),
+    ("vec-out-of-bounds", "let _ = Vec.of(1).get(a);"),
     ("nested-dead-div", "let _ = (a + 1) * (a / z);"),
   ];
   let places: [(&str, &str); 5] = [
@@ -215,7 +215,7 @@ fn loop_family(thorough: bool) -> Vec<Prog> {
     ("B>i", "B > I"), ("B>=i", "B >= I"), ("B<i", "B < I"), ("B<=i", "B <= I"), ("B!=i", "B != I"),
     ("i*2<B", "I * 2 < B"), ("i+1<B", "I + 1 < B"), ("B>i-1", "B > I - 1"), ("B<=i+2", "B <= I + 2"),
   ];
-  let steps: Vec<i64> = if thorough { vec![1, 2, 3, -1, -2, 1_000_000_000, -1_000_000_000] } else { vec![1, 2, -1, 1_000_000_000] };
+  let steps: Vec<i64> = if thorough { vec![1, 2, 3, -1, -2, 1_000_000_000, -1_000_000_000] } else { vec![1, -1, 1_000_000_000] };
   let updates: Vec<(&str, &str, bool)> = vec![
     ("acc+i", "acc + I", false),
     ("acc+i*3", "acc + I * 3", false),
